@@ -881,13 +881,44 @@ def _may_only_raise_or_pass(stmts):
     return True
 
 
+# ------------------------------------------------------------------------------------------------------------------ the program evaluated
+class RawModule:
+    """the module exactly as written.  The shared source model hands the rules a *canonicalised* tree (locals renamed back to reference
+    names, single-use temporaries inlined, `enumerate` loops rewritten, polarity of tests normalised): transformations made for rules that
+    match shapes.  An evaluator needs none of them, and one of them is wrong for it (a temporary used once inside a lambda / a nested
+    function is inlined away at its definition but not at its use).  Same indexing and node annotations as e1_srcmodel.Module."""
+
+    def __init__(self, m):
+        from . import e1_srcmodel
+        self.rel, self.path, self.source, self.digest = m.rel, m.path, m.source, m.digest
+        self.tree = ast.parse(self.source, filename=self.path)
+        self.funcs = {}
+        self.classes = {}
+        e1_srcmodel.Module._index(self, self.tree, "", None)
+
+    def _index(self, node, prefix, parent):
+        from . import e1_srcmodel
+        e1_srcmodel.Module._index(self, node, prefix, parent)
+
+    def seg(self, node):
+        return ast.get_source_segment(self.source, node)
+
+
+def raw_module(src, rel):
+    cache = src.__dict__.setdefault("_c07_raw", {})
+    m = cache.get(rel)
+    if m is None:
+        m = cache[rel] = RawModule(src.mod(rel))
+    return m
+
+
 # ------------------------------------------------------------------------------------------------------------------ interpreter
 class Interp:
     def __init__(self, ctx, rel, hook=None, oracle=None, erase=True, protect=None):
         self.ctx = ctx
         self.src = ctx.src
         self.rel = rel
-        self.mod = ctx.src.mod(rel)
+        self.mod = raw_module(ctx.src, rel)
         self.hook = hook                 # hook(interp, name, pos, kw, node) -> value | NotImplemented
         self.oracle = oracle             # oracle(interp, value, node) -> True | False | None
         self.erase = erase               # scalar image: X[i] is X ; otherwise X[i] is idx(X, i) and subscript stores are recorded
